@@ -660,6 +660,33 @@ def check(run):
             missing = sorted(a for a in reads - keyed if a not in cls.methods or 'property' in FuncRef(cls.methods[a], cls.module, cls).decorators())
             if missing:
                 problems.append(f'`{p.arg}`: {cls.name}.__eq__/__hash__ look at {sorted(keyed)} only, the function also reads {missing} - two arguments that differ there share one cache entry')
+        # the cached VALUE: a mutable container built by the function is one object for all callers - a caller that changes "its" result
+        # (reverse / append / item store ...) changes what every later call returns
+        def builds_mutable(e, local):
+            if isinstance(e, (ast.List, ast.Dict, ast.Set, ast.ListComp, ast.DictComp, ast.SetComp)):
+                return True
+            if isinstance(e, ast.Call) and isinstance(e.func, ast.Name) and e.func.id in ('list', 'dict', 'set', 'bytearray', 'defaultdict', 'OrderedDict', 'deque'):
+                return True
+            return isinstance(e, ast.Name) and e.id in local
+        local_mut = {t.id for n in ast.walk(f.node) if isinstance(n, ast.Assign) and builds_mutable(n.value, ()) for t in n.targets if isinstance(t, ast.Name)}
+        if any(isinstance(n, ast.Return) and n.value is not None and builds_mutable(n.value, local_mut) for n in ast.walk(f.node)):
+            users = []
+            for g in prog.all_functions():
+                bound = {t.id for n in ast.walk(g.node) if isinstance(n, ast.Assign) and isinstance(n.value, ast.Call)
+                         and (getattr(n.value.func, 'id', None) == f.name or getattr(n.value.func, 'attr', None) == f.name)
+                         for t in n.targets if isinstance(t, ast.Name)}
+                for n in ast.walk(g.node):
+                    if isinstance(n, ast.Call) and isinstance(n.func, ast.Attribute) and n.func.attr in MUTATORS and isinstance(n.func.value, ast.Name) and n.func.value.id in bound:
+                        users.append((g, n))
+                    elif isinstance(n, ast.Subscript) and isinstance(n.ctx, (ast.Store, ast.Del)) and isinstance(n.value, ast.Name) and n.value.id in bound:
+                        users.append((g, n))
+                    elif isinstance(n, ast.AugAssign) and isinstance(n.target, ast.Name) and n.target.id in bound:
+                        users.append((g, n))
+            if users:
+                g, n = users[0]
+                problems.append(f'the cached result is a mutable container and {g.qual} changes it in place (`{ast.unparse(n)[:40]}`): every later call with the same arguments returns the changed object')
+            else:
+                run.info(f'{f.qual}@{decs[0]} returns a mutable container shared by all callers with equal arguments; no caller in the package changes it')
         if problems:
             run.fail('D3', f'{f.qual}@{decs[0]}', f'memoised with @{decs[0]}: ' + '; '.join(problems), prog.where(f))
         else:
